@@ -187,8 +187,10 @@ class Interp:
         if expk == 'exc':
             if also is None:
                 pr = C.parse(text)
-                if pr.error or C.compiles(text)[0] is None:
+                err = pr.error or C.compiles(text)[1]
+                if err and not ('group' in err and re.search('reference|unknown|redefinition|cannot refer', err)):
                     # accepted although it had to be refused, *and* what came back does not even compile
+                    # (dangling / duplicated group references of the program itself do not count)
                     ev.flags.add('result-uncompilable')
                 self.violation(ev, 'missing-exception:' + '|'.join(exp), 'returned %r' % text)
                 return real, S.Raw(text)
